@@ -702,6 +702,88 @@ pub fn c10_case(seed: u64, case: u64, prof: &Profile, dense: bool) -> CaseResult
             }
         }
     }
+    // ---- compression wrappers: damage the *stored* (compressed) bytes; the decoders must not panic and
+    // whatever they return must still be subject to the hash checks
+    for (wi, wrapper) in ["flate", "brotli"].iter().enumerate() {
+        use melda::adapter::Adapter;
+        let mk = |inner: store::Ad| -> store::Ad {
+            let b: Box<dyn Adapter> = if wi == 0 { Box::new(melda::flate2adapter::Flate2Adapter::new_dyn(inner)) } else { Box::new(melda::brotliadapter::BrotliAdapter::new(inner)) };
+            std::sync::Arc::new(std::sync::RwLock::new(b))
+        };
+        let inner = store::plain_mem();
+        let wad = mk(inner.clone());
+        for (k, v) in &files {
+            let _ = store::put(&wad, k, v);
+        }
+        let stored = store::dump(&inner);
+        let skeys: Vec<String> = stored.keys().cloned().collect();
+        for _ in 0..(if dense { 40 } else { 10 }) {
+            if skeys.is_empty() {
+                break;
+            }
+            let sk = r.pick(&skeys).clone();
+            let orig = &stored[&sk];
+            if orig.is_empty() {
+                continue;
+            }
+            let mut f2 = stored.clone();
+            let what = match r.below(4) {
+                0 => {
+                    f2.insert(sk.clone(), orig[..r.below(orig.len())].to_vec());
+                    "truncated"
+                }
+                1 => {
+                    f2.insert(sk.clone(), vec![]);
+                    "emptied"
+                }
+                _ => {
+                    let mut v = orig.clone();
+                    let p = r.below(v.len());
+                    v[p] ^= 1 << r.below(8);
+                    f2.insert(sk.clone(), v);
+                    "bit-flipped"
+                }
+            };
+            let dad = mk(store::mem_with(&f2));
+            res.count("c10_damaged_compressed_items", 1);
+            // the view of the storage through the wrapper: undecodable items count as absent
+            let view: Files = {
+                let g = dad.read().unwrap();
+                let mut out = Files::new();
+                let keys = guard(|| g.list_objects(""));
+                if let Outcome::Ok(keys) = keys {
+                    for k in keys {
+                        match guard(|| g.read_object(&k, 0, 0)) {
+                            Outcome::Ok(v) => {
+                                out.insert(k, v);
+                            }
+                            Outcome::Err(_) => {}
+                            Outcome::Panic(p) => {
+                                res.viol("C10", &format!("{}-decoder-panics-on-damaged-bytes", wrapper), format!("{} {}: {}", what, sk, p));
+                                res.viol("C17", &format!("{}-decoder-panics-on-damaged-bytes", wrapper), format!("{} {}: {}", what, sk, p));
+                            }
+                        }
+                    }
+                }
+                out
+            };
+            match open_with(&dad, caps) {
+                Outcome::Ok(m) => {
+                    let o = observe(&m);
+                    check_closure(&mut res, "C10", "damaged-compressed", &o, &view);
+                    if o.doc.starts_with("PANIC") {
+                        res.viol("C10", "read-panics-on-damaged-storage", format!("{} {} ({}): {}", what, sk, wrapper, o.doc));
+                    }
+                    res.count("c10_opened_ok", 1);
+                }
+                Outcome::Err(_) => res.count("c10_reported_error", 1),
+                Outcome::Panic(p) => {
+                    res.viol("C10", "panic-on-damaged-storage", format!("{} {} ({}): {}", what, sk, wrapper, p));
+                    res.viol("C08", "panic-on-damaged-storage", format!("{} {} ({}): {}", what, sk, wrapper, p));
+                }
+            }
+        }
+    }
     // ---- a damaged local copy of a block, then meld from a peer that holds it intact: write-once
     // storage keeps the damaged bytes, so the block must stay without effect on this replica
     {
